@@ -49,7 +49,12 @@ PARTIAL = ("'Two daemons ... always end with exactly one holding the original na
            "simulation (real daemon threads against each other over a grid of offsets and seeds, monitor c08_final), not "
            "proved: the theorems are about the decision rules. Probe::tiebreaking has no facade entry; it is exercised "
            "through the simulated daemon (competing probe queries) and judged by chk_C08 against the specification's "
-           "tb_cmp: after a lost comparison no probe query for the name within a second. That chk_C08 accepts every run of "
+           "tb_cmp: after a lost comparison no probe query for the name within a second. That clause is proved over histories "
+           "of the daemon model in this form (C08_deferral_respected_partial): after ANY history, once the probe for a name "
+           "on an interface is deferred to D (what a lost tie-break leaves, C08_lost_tiebreak_leaves_probe_deferred), no "
+           "probe query for it goes out there in iterations before D that bring only queries (competing probes included) "
+           "and register / monitor / shutdown calls; partial because that second excludes every response datagram (not "
+           "only the host-name conflict of the known class), interface toggles and unregister. That chk_C08 accepts every run of "
            "the daemon model is validated (monitor on the model's own output), not proved. 'Still encodable' is proved for "
            "every input (C08_still_encodable: rest kept, first label of the result at most 63 bytes); that a rename yields "
            "a name different from the original is checked by the executable rename_ok on every generated name, not "
